@@ -33,11 +33,12 @@ def rule_builder_shape(ctx):
     need("dbg:tuple:open", f"&mutderive_more::__private::debug_tuple({F},#ident_str,)" in tt, "positional fields no longer start with `debug_tuple(f, name)`")
     need("dbg:tuple:field", "derive_more::__private::DebugTuple::field(#out,&#ident)" in tt, "a positional field is no longer handed to `DebugTuple::field(_, &field)` as the field itself")
     need("dbg:tuple:fmt-field", "derive_more::__private::DebugTuple::field(#out,&derive_more::core::format_args!(#fmt_attr,#(#deref_args),*),)" in tt, "a positional field with `#[debug(\"..\")]` is no longer replaced by `&format_args!(..)` of that attribute only")
-    need("dbg:tuple:finish", "derive_more::__private::DebugTuple::finish(#out)" in tt and "derive_more::__private::DebugTuple::finish_non_exhaustive(#out)" in tt, "tuple finishers changed")
+    fin_sel = _finisher_selection(fn)
+    need("dbg:tuple:finish", ("derive_more::__private::DebugTuple::finish(#out)" in tt and "derive_more::__private::DebugTuple::finish_non_exhaustive(#out)" in tt) or fin_sel.get("derive_more::__private::DebugTuple") == {True: "finish", False: "finish_non_exhaustive"}, "tuple finishers changed")
     need("dbg:struct:open", f"&mutderive_more::core::fmt::Formatter::debug_struct({F},#ident,)" in tt, "named fields no longer start with `Formatter::debug_struct(f, name)`")
     need("dbg:struct:field", "derive_more::core::fmt::DebugStruct::field(#out,#field_str,&#field_ident)" in tt, "a named field is no longer handed to `DebugStruct::field(_, name, &field)`")
     need("dbg:struct:fmt-field", "derive_more::core::fmt::DebugStruct::field(#out,#field_str,&derive_more::core::format_args!(#fmt_attr,#(#deref_args),*),)" in tt, "a named field with `#[debug(\"..\")]` is no longer `field(_, name, &format_args!(..))`")
-    need("dbg:struct:finish", "derive_more::core::fmt::DebugStruct::finish(#out)" in tt and "derive_more::core::fmt::DebugStruct::finish_non_exhaustive(#out)" in tt, "struct finishers changed")
+    need("dbg:struct:finish", ("derive_more::core::fmt::DebugStruct::finish(#out)" in tt and "derive_more::core::fmt::DebugStruct::finish_non_exhaustive(#out)" in tt) or fin_sel.get("derive_more::core::fmt::DebugStruct") == {True: "finish", False: "finish_non_exhaustive"}, "struct finishers changed")
     # declaration order and skip handling: a fold over the fields in order, `exhaustive` cleared exactly by Skip
     folds = _exhaustive_folds(fn)
     need("dbg:tuple:order", any(f_["over"] == "unnamed.unnamed.iter().enumerate()" for f_ in folds) and 'let ident=format_ident!("_{}",i)' in t, "positional fields are no longer folded in declaration order under their binder `_{i}`", {})
@@ -47,10 +48,62 @@ def rule_builder_shape(ctx):
     ok_skip = len(folds) == 2 and all(f_["init"] == "true" and f_["arms"] and all((eff == "false") == ("FieldAttribute::Left" in pat and "Some" in pat) and eff in ("false", "same") for pat, eff in f_["arms"]) and any(eff == "false" for _p, eff in f_["arms"]) for f_ in folds)
     need("dbg:skip", ok_skip, "`exhaustive` is no longer cleared exactly by a skipped field (and only then)", {"folds": [{k_: v_ for k_, v_ in f_.items()} for f_ in folds]})
     fin = re.findall(r"Ok\(if exhaustive\{quote!\(([^)]*::)finish\(#out\)\)\}else \{quote!\(\1finish_non_exhaustive\(#out\)\)\}\)", t)
-    need("dbg:finisher-choice", len(fin) == 2, "`finish()` is no longer chosen iff no field was skipped (else `finish_non_exhaustive()`): the `..` marker appears / disappears wrongly", {"found": fin})
+    need("dbg:finisher-choice", len(fin) == 2 or (len(fin_sel) == 2 and all(v == {True: "finish", False: "finish_non_exhaustive"} for v in fin_sel.values())), "`finish()` is no longer chosen iff no field was skipped (else `finish_non_exhaustive()`): the `..` marker appears / disappears wrongly", {"found": fin})
     need("dbg:field-name", "let field_str=field_ident.unraw().to_string()" in t and t.index("let field_str=field_ident.unraw().to_string()") < t.index("match FieldAttribute::parse_attrs(&field.attrs,self.attr_name)?", t.index("named.named.iter()")), "the printed field name is no longer the un-raw identifier computed once for all three field arms", {})
     # container attribute first
     need("dbg:container-attr", t.startswith("if let Some(fmt)=&self.attr.fmt{return Ok(if let Some((expr,trait_ident))=fmt.transparent_call_on_fields(self.fields){"), "a container-level format is no longer handled before (and instead of) the builders", {})
+
+
+def _finisher_selection(fn):
+    """`Builder::#finish(#out)` with the method name chosen by the exhaustiveness flag: {builder path: {True: name when
+    exhaustive, False: name otherwise}} - the name comes from `if <flag> { format_ident!("a") } else { format_ident!("b") }`,
+    inline or in a helper of the file called with the flag"""
+    out = {}
+    lets = {}
+    for st, _ in A.find(fn.block, "Stmt::Local"):
+        ids = A.pat_idents(st["pat"])
+        if len(ids) == 1 and st.get("init"):
+            lets.setdefault(ids[0], []).append(st["init"]["expr"])
+
+    def choice(e):
+        """{True: name, False: name} of an if/else on the flag `exhaustive` building two constant identifiers"""
+        e = A.peel(e)
+        if A.kind(e) == "Expr::Call" and A.kind(e["func"]) == "Expr::Path" and len(e["args"]) == 1 and A.render(e["args"][0]) == "exhaustive":
+            hs = [g for g in A.functions(fn.file) if g.name == A.path_str(e["func"]) and g.block is not None]
+            if len(hs) == 1 and len(hs[0].block["stmts"]) == 1 and A.kind(hs[0].block["stmts"][0]) == "Stmt::Expr":
+                prm = [A.pat_idents(p_["0"]["pat"]) for p_ in hs[0].node["sig"]["inputs"] if A.kind(p_) == "FnArg::Typed"]
+                inner = hs[0].block["stmts"][0]["0"]
+                if len(prm) == 1 and len(prm[0]) == 1 and A.kind(inner) == "Expr::If" and A.render(inner["cond"]) == prm[0][0]:
+                    return branches(inner)
+            return None
+        if A.kind(e) == "Expr::If" and A.render(e["cond"]) == "exhaustive":
+            return branches(e)
+        return None
+
+    def branches(iff):
+        def name(b):
+            st_ = b["stmts"] if A.kind(b) == "Block" else None
+            if st_ and len(st_) == 1 and A.kind(st_[0]) == "Stmt::Expr":
+                d = A.ident_ctor(st_[0]["0"])
+                if d and not d["args"]:
+                    return d["pattern"]
+            return None
+
+        eb = iff.get("else_branch")
+        eb = eb[1] if isinstance(eb, list) else eb
+        if eb is not None and A.kind(eb) == "Expr::Block":
+            eb = eb["block"]
+        a, b = name(iff["then_branch"]), name(eb) if eb is not None else None
+        return {True: a, False: b} if a and b else None
+
+    for t in T.templates_of(fn):
+        m = re.fullmatch(r"([\w:]+)::#(\w+)\(#out\)", T.ir_text(t.ir).replace(" ", ""))
+        if m:
+            for init in lets.get(m.group(2), []):
+                c = choice(init)
+                if c:
+                    out[m.group(1)] = c
+    return out
 
 
 def _exhaustive_folds(fn):
